@@ -97,7 +97,7 @@ func runC08(c *core.Ctx) {
 				case 2:
 					blind, bclass = new(big.Int).Sub(N, big.NewInt(1)).Bytes(), "N-1"
 				case 3:
-					blind, bclass = append([]byte{0, 0}, ScalarBytes(r, N, 46)...), "leading-zero"
+					blind, bclass = append([]byte{0, 0}, r.Bytes(46)...), "leading-zero"
 				case 4:
 					blind, bclass = new(big.Int).Add(N, new(big.Int).SetBytes(r.Bytes(8))).Bytes(), ">N"
 				case 5:
